@@ -44,6 +44,8 @@ type Case struct {
 	Opts     Opts
 	Features map[string]bool
 	Tokens   map[string]string // script slot -> unique token
+
+	ChangelogEntries []ChangelogEntry
 }
 
 func (c *Case) Feature(f string) { c.Features[f] = true }
@@ -131,7 +133,7 @@ func (g *G) srcDir() string {
 	return fmt.Sprintf("src/s%d", g.nsrc)
 }
 
-var dstBases = []string{"/opt", "/usr/share", "/etc", "/var/lib", "/usr/lib", "/srv", "/usr/local/share"}
+var dstBases = []string{"/opt", "/usr/share", "/etc", "/var/lib", "/usr/lib", "/srv", "/usr/local/share", "/.dot-base", "/..two-dots"}
 
 // dstFor returns a fresh destination below a base directory shared with other
 // entries (so that implied parents are shared).
@@ -139,6 +141,10 @@ func (g *G) dstFor(i int) string {
 	base := rng.Pick(g.r, dstBases) + "/" + g.c.Spec.Name
 	if g.r.P(1, 3) {
 		base += "/" + g.word(1)
+	}
+	if g.r.P(1, 8) {
+		base += "/." + g.word(0)
+		g.c.Feature("dot-dir-in-dst")
 	}
 	for {
 		d := fmt.Sprintf("%s/e%d-%s", base, i, g.word(2))
@@ -534,6 +540,9 @@ func New(seed uint64, idx int, root string, o Opts) (*Case, error) {
 		s.SetOverride(f, ov)
 		c.Feature("override-umask")
 	}
+	if o.Changelog {
+		g.changelog()
+	}
 	s.Deb.Compression = rng.Pick(r, []string{"", "gzip", "xz", "zstd", "none"})
 	s.RPM.Compression = rng.Pick(r, []string{"", "gzip", "gzip:1", "gzip:9", "xz", "lzma", "zstd", "zstd:1", "zstd:19"})
 	if err := c.Tree.Materialize(root); err != nil {
@@ -578,4 +587,37 @@ func (g *G) scripts() {
 	set(&s.Deb.Rules, "rules")
 	set(&s.Deb.Templates, "templates")
 	set(&s.Deb.Config, "config")
+}
+
+// ChangelogEntry is what the generator wrote into the chglog YAML file.
+type ChangelogEntry struct {
+	Semver   string
+	Date     int64
+	Packager string
+	Notes    []string
+}
+
+// changelog writes a chglog-format YAML file and points the spec at it.
+func (g *G) changelog() {
+	n := g.r.Range(1, 3)
+	var b strings.Builder
+	for i := 0; i < n; i++ {
+		e := ChangelogEntry{
+			Semver:   fmt.Sprintf("%d.%d.%d", n-i, g.r.Intn(10), g.r.Intn(10)),
+			Date:     g.mtime(),
+			Packager: fmt.Sprintf("Packager %d <p%d@example.com>", i, i),
+		}
+		for k := g.r.Range(1, 3); k > 0; k-- {
+			e.Notes = append(e.Notes, fmt.Sprintf("note %s %d", g.word(0), g.r.Intn(1000)))
+		}
+		g.c.ChangelogEntries = append(g.c.ChangelogEntries, e)
+		fmt.Fprintf(&b, "- semver: %q\n  date: %s\n  packager: %q\n  changes:\n", e.Semver, TimeRaw(e.Date).Y, e.Packager)
+		for _, nt := range e.Notes {
+			fmt.Fprintf(&b, "    - note: %q\n", nt)
+		}
+	}
+	nd := &Node{Rel: "changelog.yaml", Kind: "file", Perm: 0o644, MTime: g.mtime(), Bytes: []byte(b.String())}
+	g.c.Tree.Add(nd)
+	g.c.Spec.Changelog = filepath.Join(g.c.Root, nd.Rel)
+	g.c.Feature("changelog")
 }
